@@ -16,6 +16,16 @@ CLAIMED = {
             'and not decided.',
             'Trusts derivation of receivers from `self` (sa/effects.py) and the two reviewed no-offset sites in sa/rules/c01.py.',
             'DESIGN.md §2 C01'),
+    'C02': ('typestate of the per-node memo around every position store (memo-empty / pending-flush, element vs container flushes, '
+            'rebinding), must-reach re-index after child-list surgery and field/index agreement of every parent link, single-memo '
+            'attribute discipline, dominance of view index refresh, dominance of the memo clear over the early exits of the offset walk',
+            'Static: decides the "no stale cached answer / no stale link" discipline: a node whose position is written is flushed '
+            '(or provably has an empty memo), shifted siblings are re-indexed with the right field and index, there is exactly one '
+            'memo and it is cleared wholesale and unconditionally, views re-clip before using raw indices, the offset walk flushes what '
+            'it visits, non-offsetting splices flush all ancestors. Equality of query answers with a fresh parse is value-level and '
+            'not decided; a position-driven range flush is accepted as covering.',
+            'Trusts the flush-family tables and the 2 + 3 reviewed sites in sa/rules/c02.py.',
+            'DESIGN.md §2 C02'),
     'C11': ('syntax-order table completeness and order against the grammar (shared with C14), orientation typestate of reversed work '
             'lists in the interleaved child builders, unit inference (bytes vs characters) on the offset primitives, control-dependence '
             'of the early termination of the offset walk',
